@@ -60,6 +60,16 @@ class TrieStream:
                 case.append(f"tms {hx(rand_filter(rng))} {hx(rand_topic(rng))}")
             else:
                 case.append("dump")
+        if rng.random() < 0.3:
+            # deleting / looking up a filter that is NOT stored but is a level-prefix (or an extension) of a stored one leaves the
+            # trie unchanged: every stored filter still matches afterwards
+            f = rand_filter(rng, valid=True, maxdepth=rng.choice([2, 3, 4]))
+            lv = f.split("/")
+            val += 1
+            case.append(f"set {hx(f)} {val}")
+            other = "/".join(lv[:rng.randrange(1, len(lv))]) if len(lv) > 1 and rng.random() < 0.7 else f + "/" + rng.choice(["a", "+", "#"])
+            case.append(rng.choice([f"del {hx(other)}", f"del {hx(other)}", f"get {hx(other)}"]))
+            case.append(f"iter {hx(self._near(rng, [f]))}")
         case.append("dump")
         return case
 
